@@ -1168,12 +1168,12 @@ Section Sim.
         | Some t2 =>
             let st := inc_state (Scope l sv (parent b) (context b) (global b)) (context b) in
             match c with
-            | [] => match run W wr wd f t2 ae depth (t_chunk t2) 0 st o with
+            | [] => match run W wr wd f t2 ae depth (t_root_chunk t2) 0 st o with
                     | RDone _ o1 => R f (S pc) (mk b stk l sv []) o1
                     | RFail e => RFail e
                     | ROutOfFuel => ROutOfFuel
                     end
-            | c0 :: ct => match run W wr wd f t2 ae depth (t_chunk t2) 0 st (SinkBuf c0) with
+            | c0 :: ct => match run W wr wd f t2 ae depth (t_root_chunk t2) 0 st (SinkBuf c0) with
                           | RDone _ (SinkBuf c1) => R f (S pc) (mk b stk l sv (c1 :: ct)) o
                           | RDone _ (SinkTop _) => RFail ErrPanic
                           | RFail e => RFail e
@@ -1195,9 +1195,9 @@ Section Sim.
         | Some t2 =>
             let st := inc_state (Scope l sv (parent b) (context b) (global b)) (context b) in
             match inc name (absE b l sv) with
-            | RErr _ => exists n e, forall k, run W wr wd (n + k) t2 ae depth (t_chunk t2) 0 st o = RFail e
+            | RErr _ => exists n e, forall k, run W wr wd (n + k) t2 ae depth (t_root_chunk t2) 0 st o = RFail e
             | ROk text => exists n s', forall k,
-                run W wr wd (n + k) t2 ae depth (t_chunk t2) 0 st o = RDone s' (sink_add o text)
+                run W wr wd (n + k) t2 ae depth (t_root_chunk t2) 0 st o = RDone s' (sink_add o text)
             end
         end.
     Hypothesis Hinc : inc_sim.
@@ -1637,12 +1637,12 @@ Section Sim.
     nth_error ch pc = Some (Include name) -> assoc_get (w_templates wd) name = Some t2 ->
     run W wr wd (S f) tpl ae depth ch pc s o
     = match caps s with
-      | [] => match run W wr wd f t2 ae depth (t_chunk t2) 0 (inc_state (scope_of s) (context s)) o with
+      | [] => match run W wr wd f t2 ae depth (t_root_chunk t2) 0 (inc_state (scope_of s) (context s)) o with
               | RDone _ o1 => run W wr wd f tpl ae depth ch (S pc) s o1
               | RFail e => RFail e
               | ROutOfFuel => ROutOfFuel
               end
-      | c :: ct => match run W wr wd f t2 ae depth (t_chunk t2) 0 (inc_state (scope_of s) (context s)) (SinkBuf c) with
+      | c :: ct => match run W wr wd f t2 ae depth (t_root_chunk t2) 0 (inc_state (scope_of s) (context s)) (SinkBuf c) with
                    | RDone _ (SinkBuf c1) => run W wr wd f tpl ae depth ch (S pc) (upd_caps s (c1 :: ct)) o
                    | RDone _ (SinkTop _) => RFail ErrPanic
                    | RFail e => RFail e
